@@ -285,8 +285,11 @@ def run_node(files):
             outcome = 'running'
         except SystemExit:
             outcome = 'refused'
+        except Exception as e:      # an observation, not a harness failure
+            outcome = 'crashed: %s' % type(e).__name__
         sec = srv.secnode
-        mods = dict(sec.modules)
+        mods = {m: o for m, o in sec.modules.items() if o is not None}
+        registered = sorted(sec.modules)
         started = [m for m, o in mods.items() if o.startModuleDone]
         if outcome == 'refused' and started:
             # evidence only: give the poll threads that were started a moment to touch the hardware
@@ -294,7 +297,11 @@ def run_node(files):
             while time.time() - t0 < 0.3 and not all(getattr(mods[m], 'hwlog', None) for m in started):
                 time.sleep(0.005)
         hw = {m: list(getattr(o, 'hwlog', [])) for m, o in mods.items()}
-        sec.shutdown_modules()
+        try:
+            sec.shutdown_modules()
+        except Exception:           # (a node in a broken state: stop the threads we know of)
+            for o in mods.values():
+                o.stopPollThread()
         errors = list(sec.errors)
         merged = {}
         for f in files:
@@ -308,9 +315,11 @@ def run_node(files):
                 trace.append({'ev': 'create', 'm': m, 'out': 'rejected', 'st': {}, 'orig': False})
         if outcome == 'refused':
             named = sorted({m for line in errors for m in re.findall(r'\bm\d+\b', line)})
-            trace.append({'ev': 'refuse', 'reported': named, 'registered': sorted(mods), 'started': sorted(started),
+            trace.append({'ev': 'refuse', 'reported': named, 'registered': registered, 'started': sorted(started),
                           'hw_before_exit': {m: [list(map(str, e)) for e in hw[m] if e[0] == 'write'] for m in started},
                           'errors': errors[:12]})
+        elif outcome != 'running':
+            trace.append({'ev': 'crash', 'error': outcome, 'registered': registered})
         else:
             for m in started:
                 trace.append({'ev': 'start', 'm': m})
@@ -322,7 +331,7 @@ def run_node(files):
                     elif not seen_poll:
                         seen_poll = True
                         trace.append({'ev': 'poll', 'm': m})
-            trace.append({'ev': 'running', 'registered': sorted(mods)})
+            trace.append({'ev': 'running', 'registered': registered})
     finally:
         signal.signal, sys.stderr = saved_signal, saved_err
         generalConfig.testinit(**saved_cfg)
@@ -426,7 +435,7 @@ def _random_node_trace(seed):
 def _cmp_module(beh, got):
     """compare one executed module configuration with what TLC printed; -> (clause, detail) or None"""
     if got['out'] not in beh['allowed']:
-        return ('erroneous configuration accepted: ' + beh['why'] if got['out'] == 'accepted'
+        return ('bad config accepted: ' + beh['why'] if got['out'] == 'accepted'
                 else 'healthy configuration rejected'), {'allowed': beh['allowed'], 'observed': got['out'],
                                                          'error': got.get('error')}
     if got['out'] != 'accepted':
